@@ -488,7 +488,19 @@ func (d *deriver) freshContainer(mk ssa.Value) Deriv {
 				if b, ok := r.Common().Value.(*ssa.Builtin); ok && (b.Name() == "len" || b.Name() == "delete" || b.Name() == "append" || b.Name() == "cap") {
 					continue
 				}
-				// handed to a callee: contents may be extended there
+				// handed to a callee: contents may be extended there, unless the callee visibly only reads that
+				// parameter (ranges over it, indexes it, takes its length)
+				if sc := r.Common().StaticCallee(); sc != nil && d.p != nil && d.p.InRepo(sc) && sc.Parent() == nil && !r.Common().IsInvoke() {
+					writes := false
+					for j, arg := range r.Common().Args {
+						if arg == a && (j >= len(sc.Params) || !onlyReadsContainer(sc.Params[j], 0)) {
+							writes = true
+						}
+					}
+					if !writes {
+						continue
+					}
+				}
 				out.ElemsOK = false
 			default:
 			}
@@ -929,4 +941,59 @@ func extElemCallback(site *ssa.CallCommon) (int, bool) {
 		return 0, true
 	}
 	return 0, false
+}
+
+// onlyReadsContainer: every use of the container value v is a read of the container itself (range, index load,
+// lookup, len/cap, a sub-slice that is itself only read): nothing is stored into it and it is not passed on.
+func onlyReadsContainer(v ssa.Value, depth int) bool {
+	refs := v.Referrers()
+	if refs == nil {
+		return true
+	}
+	if depth > 3 {
+		return false
+	}
+	for _, ref := range *refs {
+		switch r := ref.(type) {
+		case *ssa.DebugRef, *ssa.Range, *ssa.Index, *ssa.Lookup:
+		case *ssa.IndexAddr:
+			if r.Referrers() != nil {
+				for _, r2 := range *r.Referrers() {
+					switch u := r2.(type) {
+					case *ssa.UnOp:
+						if u.Op != token.MUL {
+							return false
+						}
+					case *ssa.DebugRef:
+					default:
+						return false
+					}
+				}
+			}
+		case *ssa.Slice:
+			if !onlyReadsContainer(r, depth+1) {
+				return false
+			}
+		case *ssa.Call:
+			if b, ok := r.Common().Value.(*ssa.Builtin); ok {
+				if b.Name() != "len" && b.Name() != "cap" {
+					return false
+				}
+				continue
+			}
+			// passed on to a function of the repository that itself only reads it
+			sc := r.Common().StaticCallee()
+			if sc == nil || sc.Blocks == nil || r.Common().IsInvoke() || sc.Pkg == nil || !isRepoPkgPath(sc.Pkg.Pkg.Path()) {
+				return false
+			}
+			for j, arg := range r.Common().Args {
+				if arg == v && (j >= len(sc.Params) || !onlyReadsContainer(sc.Params[j], depth+1)) {
+					return false
+				}
+			}
+		default:
+			return false
+		}
+	}
+	return true
 }
